@@ -274,6 +274,11 @@ impl Report {
             for v in self.out.violations.iter().filter(|v| v.kind.starts_with("machinery:")) {
                 eprintln!("MACHINERY ERROR {}: {} history={}", v.kind, v.detail, v.history);
             }
+            // a violation with a replay file stands on its own (it can be replayed without the
+            // explorer); a machinery error alone is never a verdict
+            if n_real > 0 {
+                return 1;
+            }
             return 3;
         }
         if n_real > 0 {
